@@ -58,7 +58,7 @@ func c10Inits() []PointSpec {
 	return []PointSpec{
 		{Meas: "m", Tags: map[string]string{"t1": "tv"}, Fields: map[string]any{"a": int64(1), "message": "msg"}},
 		{Meas: "m", Tags: map[string]string{"t1": ""}, Fields: map[string]any{"a": 1.5, "message": nil}},
-		{Meas: "m", Tags: map[string]string{"t1": "x"}, Fields: map[string]any{"a": true, "message": "2021-01-02 03:04:05"}},
+		{Meas: "m", Tags: map[string]string{"t1": "x", "t2": "second tag", "t3": "third"}, Fields: map[string]any{"a": true, "message": "2021-01-02 03:04:05"}}, // several tags: each has its own index entry
 		{Meas: "m", Tags: map[string]string{"t1": "tv"}, Fields: map[string]any{"a": "str", "message": int32(3), "u": uint8(9), "f32": float32(0.5)}},
 	}
 }
